@@ -287,6 +287,12 @@ def _range(ex, *a):
         hi, _ = num_term(a[1])
         ln = z3.If(hi > lo, hi - lo, z3.IntVal(0))
         return SymSeq(ln, lambda i: SNum(lo + i, True))
+    if len(a) == 3 and isinstance(a[2], int) and a[2] > 0:
+        lo, _ = num_term(a[0])
+        hi, _ = num_term(a[1])
+        st = a[2]
+        ln = z3.If(hi > lo, (hi - lo + (st - 1)) / st, z3.IntVal(0))
+        return SymSeq(ln, lambda i: SNum(lo + i * st, True))
     raise Unsupported("range with symbolic step")
 
 
@@ -863,6 +869,8 @@ def pymethod(ex, o, name, args, kw):
                 except ValueError:
                     raise PyRaise("ValueError", "str." + name)
         if name == "join":
+            if hasattr(args[0], "sym_join"):
+                return args[0].sym_join(ex, o)
             if isinstance(args[0], SymSeq):
                 r = OpaqueStr("join")
                 r.sep, r.seq = o, args[0]
